@@ -50,12 +50,13 @@ func (u *writeUnit) start(r wuReq) error {
 				return nil
 			}
 			u.Reset()
-			r.ctx.WriteMemory(u.memoryWrite.Execution)
 			r.ctx.DeletePendingRegisters(u.memoryWrite.ReadRegisters, u.memoryWrite.WriteRegisters)
 			log.Infoi(r.ctx, "WU", u.memoryWrite.InstructionType, execution.SequenceID, "write to memory")
 			return nil
 		})
 
+		// The write is visible at once; the unit stays busy for the memory latency
+		r.ctx.WriteMemory(execution.Execution)
 		u.memoryWrite = execution
 	} else {
 		r.ctx.DeletePendingRegisters(execution.ReadRegisters, execution.WriteRegisters)
